@@ -1,0 +1,28 @@
+//go:build verif
+
+package tls
+
+// Verification hooks for property C24 (add-only, build tag "verif").
+// Thin read-only views of unexported tables; no behaviour.
+
+// VerifImplementedSuiteIDs returns the IDs of implementedCipherSuites in table
+// order (duplicates included).
+func VerifImplementedSuiteIDs() []uint16 {
+	out := make([]uint16, 0, len(implementedCipherSuites))
+	for _, s := range implementedCipherSuites {
+		out = append(out, s.id)
+	}
+	return out
+}
+
+// VerifUpstreamSuiteIDs returns the IDs of the upstream cipherSuites table.
+func VerifUpstreamSuiteIDs() []uint16 {
+	out := make([]uint16, 0, len(cipherSuites))
+	for _, s := range cipherSuites {
+		out = append(out, s.id)
+	}
+	return out
+}
+
+// VerifHasAESGCMHardwareSupport reports the value of hasAESGCMHardwareSupport.
+func VerifHasAESGCMHardwareSupport() bool { return hasAESGCMHardwareSupport }
